@@ -627,6 +627,15 @@ class Device(device.Device):
         return self.chipset.host_command_frame_max_size - 3
 
     def send_cmd_recv_rsp(self, target, data, timeout):
+        try:
+            return self._send_cmd_recv_rsp(target, data, timeout)
+        except Chipset.Error as error:
+            # A register or configuration command was refused, that is
+            # a host link or chip problem and not an RF error.
+            self.log.error(error)
+            raise IOError(errno.EIO, os.strerror(errno.EIO))
+
+    def _send_cmd_recv_rsp(self, target, data, timeout):
         def bitrate(brty):
             return [106 << i for i in range(6)].index(int(brty[:-1]))
 
@@ -1029,7 +1038,12 @@ class Device(device.Device):
     def send_rsp_recv_cmd(self, target, data, timeout):
         # print("\n".join(self._print_ciu_register_page(0, 1)))
         if target.tt3_cmd:
-            return self._tt3_send_rsp_recv_cmd(target, data, timeout)
+            try:
+                return self._tt3_send_rsp_recv_cmd(target, data, timeout)
+            except Chipset.Error as error:
+                # a register command was refused, not an RF error
+                self.log.error(error)
+                raise IOError(errno.EIO, os.strerror(errno.EIO))
         try:
             if data:
                 self.chipset.tg_response_to_initiator(data)
